@@ -53,7 +53,7 @@ def run(ctx):
     if any(k in ctx.build_errors for k in ("harness", "ocaml", "shim")):
         ties.append({"what": "correspondence machinery did not build", "detail": list(ctx.build_errors)})
         return C.finish(ctx, PROPS, aud, {"evaluations": 0, "distinct_nontrivial": 0, "samples": []}, violations, ties, ASSUME, level="exploration")
-    res = K.explore(ctx, observer_factory=Observer)
+    res = K.explore(ctx, observer_factory=Observer, only=lambda f: "nodir" not in f["name"] and "maintenance-ensure-vs-ensure" not in f["name"])
     agree, nontriv, points, reads = 0, 0, 0, 0
     kinds = {}
     for fam, kind, plan, cr, diffs, obs, ml in res:
@@ -96,13 +96,32 @@ def run(ctx):
                 if f[1] == "f" and f[0].startswith(("w/", "r0/")) and ".kismet_temp/" not in f[0] and not f[0].rsplit("/", 1)[1].startswith("."):
                     if f[7] not in fam["values"] and f[7] != "x":
                         violations.append({"what": "at the end %s holds %s" % (f[0], f[7]), "classification": {"kind": "partial-final", "family": fam["name"].split(":")[1]}, "replay": replay})
+    # a reader that does not own the entry: the advisory re-touch of a hit fails (EPERM); the handle
+    # must still yield the complete value when read to the end from where it stands
+    from . import lookupfault as LF
+    fres = LF.runs(ctx)
+    whole = K.fnv_show(LF.VALUE)
+    for (desc, L, seq, kk, er, call), impl, diffs in fres:
+        if diffs:
+            ties.append({"what": "model and implementation disagree on a lookup whose %s fails" % call, "case": str(desc), "detail": diffs[:3]})
+        else:
+            agree += 1
+        if impl is None or 1 not in impl.results:
+            continue
+        cls, d = S.fields(impl.results[1][1])
+        if cls == "OkSome":
+            reads += 1
+            if d.get("off") != "0" or d.get("content") != whole:
+                violations.append({"what": "when %s fails with %s during a lookup, the returned handle stands at offset %s of %s: read to the end it yields a truncated value" % (call, er, d.get("off"), d.get("content")),
+                                   "classification": {"kind": "handle-not-at-start", "call": call},
+                                   "replay": {"kind": "fault", "scenario": L, "fault_seq": seq, "errno": er, "result": impl.results[1][1]}})
     seen, uniq = set(), []
     for v in violations:
         k = tuple(sorted(v["classification"].items()))
         if k not in seen:
             seen.add(k); uniq.append(v)
-    cov = {"evaluations": len(res), "distinct_nontrivial": nontriv,
-           "rule": "families {set|get, set|set, put|put, put|set, ensure|ensure, ensure|set, touch|set, promotion from a secondary cache|get, promotion|promotion, get_or_update Replace|get, maintenance (capacity exceeded, trigger firing)|get, |set, |maintenance} x front-end {plain, sharded} with multi-chunk values of 5000 and 7000 bytes: for EVERY filesystem-call boundary of every participant, a context switch to the other participant(s) which run to completion (thorough: two switches at every pair of boundaries, three participants, random schedules). Oracles: every returned handle reads a complete value of its key, at return and again after the others ran; at every scheduling point every key-named file on disk is complete and read-only; final tree likewise; each schedule replayed on the pool model and compared. Non-trivial = at least two context switches.",
+    cov = {"evaluations": len(res) + len(fres), "distinct_nontrivial": nontriv, "lookup_fault_runs": len(fres),
+           "rule": "families {set|get, set|set, put|put, put|set, ensure|ensure, ensure|set, touch|set, promotion from a secondary cache|get, promotion|promotion, get_or_update Replace|get, maintenance (capacity exceeded, trigger firing)|get, |set, |maintenance} x front-end {plain, sharded} with multi-chunk values of 5000 and 7000 bytes: for EVERY filesystem-call boundary of every participant, a context switch to the other participant(s) which run to completion (thorough: two switches at every pair of boundaries, three participants, random schedules). Oracles: every returned handle reads a complete value of its key, at return and again after the others ran; at every scheduling point every key-named file on disk is complete and read-only; final tree likewise; each schedule replayed on the pool model and compared; plus lookups of a not-yet-marked hit whose bookkeeping calls fail (EPERM as for a reader that does not own the file): the handle still yields the whole value. Non-trivial = at least two context switches.",
            "samples": [{"family": f["name"], "kind": k} for f, k, *_ in res[:3]], "traces_validated_against_impl": agree,
            "schedule_kinds": kinds, "scheduling_points_inspected": points, "handles_read": reads}
     if not ctx.quick():
